@@ -291,6 +291,11 @@ public:
                             if (Cap.capturesVariable()) {
                                 J.attribute("name", Cap.getCapturedVar()->getNameAsString());
                                 J.attribute("did", C.declId(Cap.getCapturedVar()));
+                                J.attribute("t", C.typeStr(Cap.getCapturedVar()->getType()));
+                                if (Cap.getCapturedVar()->isInitCapture()) {
+                                    J.attribute("initcapture", true);
+                                    J.attributeArray("c", [&] { varDecl(Cap.getCapturedVar()); });
+                                }
                             }
                             J.attribute("byref", Cap.getCaptureKind() == LCK_ByRef);
                         });
